@@ -199,6 +199,8 @@ class Lin(Sym):
         return Lin(self.c * k, self.cpi * k, {j: v * k for j, v in self.coefs.items()})
 
     def __add__(self, o):
+        if isinstance(o, SymMat):
+            return NotImplemented
         o = lift(o)
         if isinstance(o, Lin):
             co = dict(self.coefs)
@@ -211,6 +213,8 @@ class Lin(Sym):
         return self.scale(-1)
 
     def __mul__(self, o):
+        if isinstance(o, SymMat):
+            return NotImplemented
         o = lift(o)
         if isinstance(o, Lin):
             if self.is_const():
@@ -284,6 +288,8 @@ class Tree(Sym):
         return self
 
     def __add__(self, o):
+        if isinstance(o, SymMat):
+            return NotImplemented
         o = lift(o).tree()
         if o.zero:
             return self
@@ -293,6 +299,8 @@ class Tree(Sym):
         return Tree(f"(EAdd {a.coq} {b.coq})", lambda v: a.fn(v) + b.fn(v))
 
     def __mul__(self, o):
+        if isinstance(o, SymMat):
+            return NotImplemented
         o = lift(o).tree()
         if self.zero or o.zero:
             return const_tree(CQ())
@@ -375,13 +383,32 @@ def symify(x):
     return x
 
 
+_INV_SQRT2 = 2 ** -0.5
+
+
+def snap_real(x):
+    """float -> exact symbolic real: small dyadics stay rational, +-1/sqrt(2) (within 2 ulp) is read
+    as sqrt(2)/2, multiples of pi as in snap_pi; anything else keeps its exact binary value."""
+    x = float(x)
+    if abs(abs(x) - _INV_SQRT2) <= 2 * _math.ulp(_INV_SQRT2):
+        return const_tree(CQ(Fraction(1 if x > 0 else -1, 2))) * SQRT2
+    return symify(x)
+
+
 def lift(x):
     if isinstance(x, Sym):
         return x
     if isinstance(x, SymMat):
         raise TraceError("matrix used as scalar")
     if isinstance(x, (float, _np.floating)):
-        return symify(x)
+        return snap_real(x)
+    if isinstance(x, (complex, _np.complexfloating)):
+        re, im = snap_real(x.real), snap_real(x.imag)
+        if isinstance(re, Lin) and isinstance(im, Lin) and re.is_const() and im.is_const():
+            return Lin(CQ(re.c.re, im.c.re))
+        if isinstance(re, Lin) and not re.is_const() or isinstance(im, Lin) and not im.is_const():
+            raise TraceError("complex constant with a pi-multiple part")
+        return re.tree() + im.tree() * const_tree(CQ(0, 1))
     if is_number(x):
         return Lin(CQ.of(x))
     raise TraceError(f"cannot lift {type(x).__name__}")
@@ -456,8 +483,51 @@ class SymMat:
 
     __rmul__ = __mul__
 
+    def __radd__(self, o):
+        return self.__add__(o)
+
     def __add__(self, o):
+        if isinstance(o, (SymMat, _np.ndarray)):
+            o = SymMat._of(o)
+            return SymMat([[lift(a).tree() + lift(b).tree() for a, b in zip(r, q)] for r, q in zip(self.rows, o.rows)])
         return SymMat([[lift(e).tree() + o for e in r] for r in self.rows])
+
+    __array_priority__ = 2000
+    __array_ufunc__ = None
+
+    def __neg__(self):
+        return SymMat([[-lift(e).tree() for e in r] for r in self.rows])
+
+    def __sub__(self, o):
+        return self + (-(o if isinstance(o, SymMat) else SymMat(_np.asarray(o).tolist())))
+
+    @property
+    def T(self):
+        return SymMat([list(c) for c in zip(*self.rows)])
+
+    def conj(self):
+        return SymMat([[lift(e).conj() if isinstance(lift(e), Lin) else lift(e).tree().conj() for e in r] for r in self.rows])
+
+    @staticmethod
+    def _of(o):
+        return o if isinstance(o, SymMat) else SymMat(_np.asarray(o).tolist())
+
+    def __matmul__(self, o):
+        o = SymMat._of(o)
+        cols = list(zip(*o.rows))
+        out = []
+        for r in self.rows:
+            row = []
+            for c in cols:
+                acc = const_tree(CQ())
+                for a, b in zip(r, c):
+                    acc = acc + lift(a).tree() * lift(b).tree()
+                row.append(acc)
+            out.append(row)
+        return SymMat(out)
+
+    def __rmatmul__(self, o):
+        return SymMat._of(o) @ self
 
     def coq(self):
         return "[" + "; ".join("[" + "; ".join(lift(e).tree().coq for e in r) + "]" for r in self.rows) + "]"
